@@ -137,14 +137,14 @@ def entries():
         return m
 
     def expanding_maf():
-        # every unconstrained scale around 95: softplus is the identity there and exp(95) is beyond single precision -
+        # every unconstrained scale around 800: softplus is the identity there and exp(800) is beyond double precision -
         # values, log-dets and gradients are ordinary numbers
         m = TR.MaskedAffineAutoregressiveTransform(3, 8, num_blocks=1)
         with torch.no_grad():
-            m.autoregressive_net.final_layer.bias[0::2] = 95.0
+            m.autoregressive_net.final_layer.bias[0::2] = 800.0
         return m
 
-    add("MaskedAffineAR/scales-around-95", "transform", expanding_maf, _rn(3), flags={"inv"})
+    add("MaskedAffineAR/scales-around-800", "transform", expanding_maf, _rn(3), flags={"inv"})
     add("MaskedAffineAR/96-features-contracting", "transform", wide_maf, _rn(96), flags={"inv", "large", "illconditioned"})
     add("MaskedAffineAR/ctx+random", "transform", lambda: TR.MaskedAffineAutoregressiveTransform(3, 8, context_features=2, num_blocks=2, use_residual_blocks=False, random_mask=True), _rn(3), _rn(2), flags={"inv", "ctor_random"})
     # few hidden units under random masks: degrees go missing, so the dependency chains (and with them how many inverse
@@ -258,6 +258,8 @@ def entries():
     add("CauchyCDF", "transform", lambda: NL.CauchyCDF(), _rn(3), flags={"anyshape", "inv", "noparams"}, y=_ru(3))
     add("CauchyCDFInverse", "transform", lambda: NL.CauchyCDFInverse(), _ru(3), flags={"inv", "bounded01", "noparams"}, y=_rn(3))
     add("PointwiseAffine/tensor", "transform", lambda: TR.PointwiseAffineTransform(shift=torch.tensor([0.5, -1.0, 2.0]), scale=torch.tensor([2.0, -0.5, 3.0])), _rn(3), flags={"inv", "noparams"}, build_alt=lambda: TR.PointwiseAffineTransform(shift=torch.tensor([0.0, 0.0, 0.0]), scale=torch.tensor([1.0, 1.0, 1.0])))
+    # unit-conversion constants: scales far from one but well inside single precision (their squares are not)
+    add("PointwiseAffine/scales-1e-25-and-1e22", "transform", lambda: TR.PointwiseAffineTransform(shift=torch.tensor([0.5, -1.0, 2.0]), scale=torch.tensor([1e-25, -3.0, 1e22])), _rn(3), flags={"inv", "noparams"}, build_alt=lambda: TR.PointwiseAffineTransform(shift=torch.tensor([0.0, 0.0, 0.0]), scale=torch.tensor([1.0, 1.0, 1.0])))
     add("PointwiseAffine/scalar-image", "transform", lambda: TR.PointwiseAffineTransform(shift=0.5, scale=-2.0), _rn(2, 3, 2), flags={"anyshape", "inv", "noparams", "image"})
     add("GatedLinearUnit", "transform", lambda: NL.GatedLinearUnit(), _rn(3), _rn(3), flags={"inv", "noparams"})
     add("GatedLinearUnit/row-gate", "transform", lambda: NL.GatedLinearUnit(), _rn(3), _rn(1), flags={"inv", "noparams"})
